@@ -653,6 +653,12 @@ let rec existsb f = function
 | [] -> false
 | a :: l0 -> (||) (f a) (existsb f l0)
 
+(** val forallb : ('a1 -> bool) -> 'a1 list -> bool **)
+
+let rec forallb f = function
+| [] -> true
+| a :: l0 -> (&&) (f a) (forallb f l0)
+
 (** val filter : ('a1 -> bool) -> 'a1 list -> 'a1 list **)
 
 let rec filter f = function
@@ -1180,6 +1186,12 @@ let largest_cc_size h =
 let size_answer n0 h =
   rbind (largest_cc_size h) (fun m -> Ok ((frac m n0), (frac m n0)))
 
+(** val lift : 'a1 result -> 'a1 samp **)
+
+let lift = function
+| Ok a -> Ret a
+| Err e -> Fail e
+
 (** val estimate_SIR_prob_size : graph -> q -> q list -> (q * q) result **)
 
 let estimate_SIR_prob_size g p us =
@@ -1342,6 +1354,46 @@ let rec dpn_outer g tau gamma w nodes h =
 let directed_percolate_network g tau gamma w =
   dpn_outer g tau gamma w g.gnodes pg_empty
 
+(** val remove_nodes : pgraph -> node list -> pgraph **)
+
+let remove_nodes h r0 =
+  { pg_nodes = (filter (fun x -> negb (mem x r0)) h.pg_nodes); pg_edges =
+    (filter (fun e -> (&&) (negb (mem (fst e) r0)) (negb (mem (snd e) r0)))
+      h.pg_edges); pg_dur =
+    (filter (fun nd -> negb (mem (fst nd) r0)) h.pg_dur); pg_delay =
+    (filter (fun e ->
+      (&&) (negb (mem (fst (fst e)) r0)) (negb (mem (snd (fst e)) r0)))
+      h.pg_delay) }
+
+(** val as_set : graph -> source -> node list result **)
+
+let as_set g = function
+| One u -> if has_node g u then Ok (u :: []) else Err TypeErr
+| Many l -> Ok (dedup l)
+
+(** val infected_nodes_in :
+    pgraph -> node list -> node list -> node list result **)
+
+let infected_nodes_in h i0 r0 =
+  if forallb (fun x -> mem x h.pg_nodes) r0
+  then out_component (to_graph (remove_nodes h r0)) (Many i0)
+  else Err PyException
+
+(** val get_infected_nodes :
+    graph -> q -> q -> source -> source -> node list samp **)
+
+let get_infected_nodes g tau gamma inf rec0 =
+  match as_set g rec0 with
+  | Ok r0 ->
+    (match as_set g inf with
+     | Ok i0 ->
+       if existsb (fun x -> mem x r0) i0
+       then Fail EoNError
+       else bind (directed_percolate_network g tau gamma true) (fun h ->
+              lift (infected_nodes_in h i0 r0))
+     | Err e -> Fail e)
+  | Err e -> Fail e
+
 (** val nm_perc_tab :
     (node -> node option) -> (node -> node option) -> (node -> node -> bool)
     -> graph -> pgraph result **)
@@ -1359,4 +1411,10 @@ let exec_pgraph =
     (q * q) samp -> q list -> call list -> (q * q) result * call list **)
 
 let exec_qq =
+  exec
+
+(** val exec_nodes :
+    node list samp -> q list -> call list -> node list result * call list **)
+
+let exec_nodes =
   exec
